@@ -992,6 +992,7 @@ impl CompositionGraph {
     ///
     /// This method panics if the provided node id is invalid.
     pub fn unexport(&mut self, node: NodeId) -> Result<(), UnexportError> {
+        let index = node.0;
         let node = &mut self.graph[node.0];
         if let NodeKind::Definition = node.kind {
             return Err(UnexportError::MustExportDefinition);
@@ -1002,6 +1003,9 @@ impl CompositionGraph {
             let removed = self.exports.swap_remove(&name);
             assert!(removed.is_some());
         }
+
+        // The node may have been exported under more than one name
+        self.exports.retain(|_, n| *n != index);
 
         Ok(())
     }
@@ -1056,6 +1060,7 @@ impl CompositionGraph {
             "removing node {index} from the graph",
             index = node.0.index()
         );
+        let index = node.0;
         let node = self.graph.remove_node(node.0).expect("invalid node id");
 
         // Remove any import entry
@@ -1071,6 +1076,9 @@ impl CompositionGraph {
             let removed = self.exports.swap_remove(name);
             assert!(removed.is_some());
         }
+
+        // The node may have been exported under more than one name
+        self.exports.retain(|_, n| *n != index);
 
         if let NodeKind::Definition = node.kind {
             log::debug!(
